@@ -77,6 +77,10 @@ def t_compound_assign(c, ops, cp):
     return has(c, lambda n: n[0] == "assign" and n[1] != "=")
 
 
+def t_hybrid(c, ops, cp):
+    return has(c, lambda n: n[0] in ("post", "stmtexpr") or (n[0] == "call"))
+
+
 def t_literal(c, ops, cp):
     return has(c, lambda n: n[0] == "num")
 
@@ -86,6 +90,9 @@ RULES = [
     Rule("uac-nopromo", "value", "KF-uac-nopromo", t_cmp_or_cond, doc="comparisons and ?: convert to the common type of the unpromoted operand types"),
     Rule("widen-signed-to-unsigned-zero", "value", "KF-widen-signed-to-unsigned-zero", t_always, doc="signed -> wider unsigned zero-extends"),
     Rule("div-unsigned", "value", "KF-div-unsigned", t_div, doc="/ and % are computed unsigned whatever the common type"),
+    Rule("hybrid-eager", "value", "KF-hybrid-eager", t_hybrid,
+         doc="value-producing side effects are computed before the statement that consumes them: not guarded by enclosing ?: arms (only a statement-expression that is directly an arm, by the innermost condition), "
+             "by && / ||, and computed once for a loop condition"),
     Rule("logical-typed-as-operand", "static", "KF-logical-typed-as-operand", t_logical,
          il_msg=r"(CAST|MSB)[^:]*: bitvector expected, got bool|local \w+: IL holds a bool",
          doc="! && || are typed as their left operand, so converting or storing the result applies CAST/SETL to a boolean"),
